@@ -55,9 +55,57 @@ func (fg *FnGen) freshSubObjects(ref *Term, ty types.Type, depth int) {
 		ft := stt.Field(i).Type()
 		if _, isStruct := ft.Underlying().(*types.Struct); isStruct {
 			name, _ := fg.fieldVar(ty, stt, i)
-			sub := App("fld:"+name, SInt, ref)
+			sub := fg.subRef(name, ref)
 			fg.assume(Gt(sub, fg.refLimit()))
 			fg.freshSubObjects(sub, ft, depth+1)
 		}
 	}
+}
+
+// Allocation clock: fg.allocs holds one term that bounds from above every reference allocated so far. A callee may
+// have allocated objects: after a call returning references the clock is bumped to a fresh bound that dominates the
+// returned references; later allocations of this function are above it (hence distinct from everything returned).
+func (fg *FnGen) bumpClock(res []*Term, sig *types.Signature) {
+	if fg.noDefs || sig == nil {
+		return
+	}
+	var refs []*Term
+	for i, r := range res {
+		if i >= sig.Results().Len() || hasBound(r) {
+			continue
+		}
+		switch sig.Results().At(i).Type().Underlying().(type) {
+		case *types.Pointer, *types.Map, *types.Chan:
+			if r.Kind == KConst {
+				refs = append(refs, r)
+			}
+		case *types.Slice:
+			if r.Kind == KConst {
+				refs = append(refs, SBase(r))
+			}
+		}
+	}
+	if len(refs) == 0 {
+		return
+	}
+	c := fg.freshConst("clock", SInt)
+	prev := fg.refLimit()
+	if len(fg.allocs) > 0 {
+		prev = fg.allocs[0]
+	}
+	fg.assume(Ge(c, prev))
+	for _, r := range refs {
+		fg.assume(Le(r, c))
+	}
+	fg.allocs = []*Term{c}
+}
+
+// subRef: reference of the by-value struct field `name` embedded in the object at base. The mapping is injective
+// (distinct objects have distinct embedded sub-objects): recorded through an inverse function.
+func (fg *FnGen) subRef(name string, base *Term) *Term {
+	t := App("fld:"+name, SInt, base)
+	if !fg.noDefs && !hasBound(base) {
+		fg.assume(Eq(App("fldinv:"+name, SInt, t), base))
+	}
+	return t
 }
